@@ -1,5 +1,5 @@
 (* C07 - format conversion.  Model: Model/Convert.v (to_zerv.rs x2, render pipeline) + Model/Render.v. *)
-From ZV Require Import Str Zerv Render Convert ConvertProofs SemVer Pep440 Pep440Nf PepRoundTrip SemVerRoundTrip OutputGrammar RegexSrc.
+From ZV Require Import Str Zerv Render Convert ConvertProofs SemVer Pep440 Pep440Nf PepRoundTrip SemVerRoundTrip OutputGrammar RegexSrc PepParseNf.
 From RelationAlgebra Require regex.
 
 (* SemVer -> Zerv always succeeds: the schema pushes of the PreReleaseProcessor never violate the placement rules,
@@ -28,6 +28,19 @@ Proof. exact pep_roundtrip. Qed.
 
 Theorem c07_pep440_roundtrip_test_sound : forall p, pep_nf_b p = true -> pep_of_zerv (zerv_of_pep p) = Some p.
 Proof. exact pep_roundtrip_b. Qed.
+
+(* ... in particular on EVERY string the PEP 440 parser accepts: nothing the parser can return is changed by PEP 440 -> Zerv -> PEP 440 *)
+Theorem c07_every_parsed_pep440_roundtrips : forall s v, pep_parse s = Some v -> pep_of_zerv (zerv_of_pep v) = Some v.
+Proof. exact pep_parsed_roundtrip. Qed.
+
+(* `zerv render` PEP 440 -> PEP 440 prints the normal form of the value it parsed and never fails on an accepted string; rendering that
+   output again returns it unchanged (zerv reads back its own PEP 440 versions unchanged) *)
+Theorem c07_render_pep440_is_normal_form : forall pre s v, pep_parse s = Some v -> render_cmd FPep440 FPep440 pre s = OOk (pre ++ pep_print v).
+Proof. exact render_pep440_normal_form. Qed.
+
+Theorem c07_render_pep440_fixed_point : forall pre s t, render_cmd FPep440 FPep440 pre s = OOk t ->
+  exists v, pep_parse s = Some v /\ t = pre ++ pep_print v /\ render_cmd FPep440 FPep440 [] (pep_print v) = OOk (pep_print v).
+Proof. exact render_pep440_fixed_point. Qed.
 
 (* THE CANONICAL SHAPE  X.Y.Z[-[epoch.E.][alpha|beta|rc.N.][post.P.][dev.D]][+ids]  (every subset of the four parts, every label):
    SemVer -> Zerv gives the expected object, Zerv -> SemVer gives back exactly the same value (numbers below 2^64) *)
@@ -83,3 +96,6 @@ Print Assumptions c07_render_pep440_in_grammar.
 Print Assumptions c07_canonical_semver_unchanged.
 Print Assumptions c07_canonical_to_pep440.
 Print Assumptions c07_canonical_back_to_semver.
+Print Assumptions c07_every_parsed_pep440_roundtrips.
+Print Assumptions c07_render_pep440_is_normal_form.
+Print Assumptions c07_render_pep440_fixed_point.
